@@ -174,6 +174,11 @@ class RegExp:
         """
         vm = self._create_vm()
 
+        if (self._global or self._sticky) and self.lastIndex > len(string):
+            # lastIndex beyond the end of the input: no match, not even an empty one
+            self.lastIndex = 0
+            return False
+
         if self._sticky:
             result = vm.match(string, self.lastIndex)
             if result:
@@ -220,6 +225,11 @@ class RegExp:
             start_pos = cp_start
         else:
             start_pos = self.lastIndex if (self._global or self._sticky) else 0
+
+        if start_pos > len(string):
+            # lastIndex beyond the end of the input: no match, not even an empty one
+            self.lastIndex = 0
+            return None
 
         if self._sticky:
             result = vm.match(string, start_pos)
